@@ -89,8 +89,16 @@ TRenderMerge ==
   /\ (Judge("C18") /\ ctx.o.merge /\ ~Eq(ctx.a, ctx.b, ctx.o)) =>
        /\ Check(Rec.st = "ok" /\ Rec.p.k # "I", "C18", "rendermerge-call")
        /\ (Rec.st = "ok" /\ Rec.p.k # "I") => Check(Eq(MergePatch(ctx.a, Rec.p), ctx.b, ctx.o), "C18", "rfc7386-on-a")
+(* the listed deviation "merge-empty-object-replaces" of the merge readers (C12) is shared by v1: the patch {} leaves a     *)
+(* non-object target unchanged, so the rendering of "a non-object became {}" does not read back                            *)
+EmptyObjKnown ==
+  /\ "merge-empty-object-replaces" \in KnownDevs /\ Rec.raw = "{}" /\ ctx.b = EmptyObj /\ ~IsObj(ctx.a)
+  /\ Rec.read = "ok" /\ Rec.res.st = "ok" /\ Rec.res.doc = ctx.a
 TMergeTrip == IsEvent("MergeTrip") /\ Consume /\ Keep /\ UNCHANGED ctx
-              /\ ((Judge("C18") /\ ctx.o.merge /\ ~Eq(ctx.a, ctx.b, ctx.o)) => Trip("C18", "merge-read-back"))
+              /\ ((Judge("C18") /\ ctx.o.merge /\ ~Eq(ctx.a, ctx.b, ctx.o)) =>
+                     IF Rec.read = "ok" /\ Rec.res.st = "ok" /\ Rec.eq THEN TRUE
+                     ELSE IF EmptyObjKnown THEN PrintT(<<"JDV-KNOWN", Rec.sess, "C18", "merge-empty-object-replaces">>)
+                     ELSE Trip("C18", "merge-read-back"))
 
 TEnd == IsEvent("End") /\ Consume /\ doc' = Void /\ rest' = <<>> /\ status' = "idle" /\ ctx' = NoCtx
 
